@@ -1,252 +1,1139 @@
 package main
 
 // Facts about package-level state (sub-command "gofacts"), for property C17: every statement that
-// writes a package-level variable outside initialisation, and every method call whose receiver is a
-// package-level variable (with the method name, so that Lean can check it against a list of read-only
-// methods).  Purely syntactic (go/parser): package-level names are collected per package; a local
-// declaration of the same name in the enclosing function shadows it.
+// writes a package-level variable outside initialisation, every method call whose receiver is rooted
+// at a package-level variable (with the method name, so that Lean can check it against a list of
+// read-only methods), and every place where the address of (an element of) a package-level variable
+// is taken.
+//
+// The extractor works on TYPE-CHECKED syntax (go/parser + go/types, standard library only):
+//
+//   - every identifier is resolved to its types.Object, so a local `n := 1` in some block hides the
+//     package-level `n` exactly where the Go scoping rules say so and nowhere else;
+//   - a target is "package-level" iff the ROOT of its selector / index / slice / star / paren / & /
+//     conversion / type-assertion chain is a *types.Var whose parent scope is a package scope — of the
+//     package itself, of another package of the module (`internal.Tab[3] = …`), or of any other package;
+//   - the root of a call is: for a call of an ACCESSOR (a function or method each of whose return
+//     statements returns one expression rooted at a package-level variable; computed to a fixpoint, over
+//     all packages of the module) that variable; for any other method call the root of the receiver
+//     (a method may return a pointer into its receiver); for `append(x, …)` the root of x; otherwise
+//     none.  A call whose result type cannot alias anything (numbers, strings, structs of such) has no root;
+//   - write forms: `=` and every `op=`, `++`/`--`, `for k, v = range` targets, the destination of the
+//     builtins copy / clear / delete / append;
+//   - method calls: every method selection x.M (called or taken as a method value) and every method
+//     expression call T.M(x, …);
+//   - address taking: `&x…`, and slicing an array `x…[i:j]`;
+//   - function literals are walked wherever they occur — in particular those in package-level `var`
+//     initialisers and those inside init-only functions are treated as NON-initialisation code;
+//   - initialisation code is: package-level initialiser expressions, `init` functions, and unexported
+//     non-method functions every reference to which is a direct call from initialisation code (outside
+//     function literals);
+//   - the packages are type-checked once per build configuration (amd64, arm64, neither; plus one per
+//     purego-like tag mentioned in a //go:build line) and the facts are united; a non-test Go file that
+//     is in no configuration (and is not under one of the never-set tags verif / tablegen / ignore) stops
+//     the translator.
+//
+// NOT covered (documented in Props/C17.lean as well): a pointer, slice or map obtained from a
+// package-level variable and stored in a local variable or passed to a callee and written there
+// (`p := one; p.SetInt64(0)`, `f(table[:])`) — address-taking and array slicing are at least LISTED
+// (packageLevelAddrTaken); multi-result accessors; unsafe; reflection; assembly.
+//
+// Before emitting, the extractor is run on a built-in fixture (testdata/gofacts_fixture, embedded) that
+// plants one instance of every form above and of every benign look-alike; the translator refuses to
+// emit unless the facts reported on the fixture are exactly the marked ones.
 
 import (
+	"embed"
 	"fmt"
 	"go/ast"
+	"go/build"
+	"go/importer"
 	"go/parser"
 	"go/token"
+	"go/types"
+	"io"
+	"io/fs"
 	"os"
-	"path/filepath"
+	"os/exec"
+	"path"
 	"sort"
 	"strings"
 )
 
-func genGoFacts() {
-	pkgs := []string{"utils", "sm3", "sm4", "sm2", "sm2/internal", "sm2/internal/fiat"}
-	var writes, calls []string
-	nvars := 0
-	for _, pkg := range pkgs {
-		dir := filepath.Join(repo, pkg)
-		ents, err := os.ReadDir(dir)
+//go:embed testdata/gofacts_fixture
+var gofactsFixtureFS embed.FS
+
+// ---------------------------------------------------------------------------------------------------
+// build configurations and loading
+
+type gfConfig struct {
+	name   string
+	goarch string
+	tags   []string
+}
+
+// tags that are never set in a normal build of the library
+var gfNeverTags = []string{"verif", "tablegen", "ignore"}
+
+// tags that select a variant without assembly; each one mentioned in the sources gets its own configuration
+var gfVariantTags = []string{"purego", "noasm", "nosimd", "generic", "appengine", "safe"}
+
+type gfPkg struct {
+	rel   string // directory relative to the module root, "/"-separated
+	path  string // import path
+	files []*ast.File
+	tpkg  *types.Package
+	info  *types.Info
+}
+
+// one module (the library, or the fixture), type-checked for one build configuration
+type gfLoader struct {
+	fsys    fs.FS  // the module root
+	osRoot  string // the module root on disk, for `go list` of third-party imports ("" = none allowed)
+	modPath string
+	cfg     gfConfig
+	fset    *token.FileSet
+	std     types.Importer
+	pkgs    map[string]*gfPkg // import path → package of the module
+	other   map[string]*types.Package
+	busy    map[string]bool
+	used    map[string]bool // rel/file of every file of the module included in this configuration
+}
+
+var gfStdImporter types.Importer
+var gfFset = token.NewFileSet()
+
+func gfStd() types.Importer {
+	if gfStdImporter == nil {
+		// the standard library is type-checked from source (no export data, no go command needed)
+		build.Default.CgoEnabled = false
+		gfStdImporter = importer.ForCompiler(gfFset, "source", nil)
+	}
+	return gfStdImporter
+}
+
+func (l *gfLoader) context(fsys fs.FS) *build.Context {
+	ctxt := build.Default
+	ctxt.GOARCH = l.cfg.goarch
+	ctxt.GOOS = "linux"
+	ctxt.CgoEnabled = false
+	ctxt.Compiler = "gc"
+	ctxt.BuildTags = append([]string{}, l.cfg.tags...)
+	ctxt.UseAllFiles = false
+	ctxt.JoinPath = path.Join
+	ctxt.OpenFile = func(p string) (io.ReadCloser, error) { return fsys.Open(p) }
+	return &ctxt
+}
+
+// the non-test Go files of directory rel of fsys that belong to the configuration, parsed
+func (l *gfLoader) parseDir(fsys fs.FS, rel, display string) ([]*ast.File, []string) {
+	ents, err := fs.ReadDir(fsys, rel)
+	if err != nil {
+		die("gofacts: %v", err)
+	}
+	ctxt := l.context(fsys)
+	var files []*ast.File
+	var names []string
+	for _, e := range ents {
+		n := e.Name()
+		if e.IsDir() || !strings.HasSuffix(n, ".go") || strings.HasSuffix(n, "_test.go") {
+			continue
+		}
+		ok, err := ctxt.MatchFile(rel, n)
 		if err != nil {
-			die("%v", err)
+			die("gofacts: %s/%s: %v", rel, n, err)
 		}
-		fset := token.NewFileSet()
-		var files []*ast.File
-		var names []string
-		for _, e := range ents {
-			n := e.Name()
-			if e.IsDir() || !strings.HasSuffix(n, ".go") || strings.HasSuffix(n, "_test.go") || strings.HasPrefix(n, "verif_export") {
+		if !ok {
+			continue
+		}
+		src, err := fs.ReadFile(fsys, path.Join(rel, n))
+		if err != nil {
+			die("gofacts: %v", err)
+		}
+		f, err := parser.ParseFile(l.fset, path.Join(display, n), src, parser.ParseComments)
+		if err != nil {
+			die("gofacts: %v", err)
+		}
+		files = append(files, f)
+		names = append(names, n)
+	}
+	return files, names
+}
+
+func (l *gfLoader) inModule(p string) bool {
+	return p == l.modPath || strings.HasPrefix(p, l.modPath+"/")
+}
+
+func (l *gfLoader) Import(p string) (*types.Package, error) {
+	switch {
+	case p == "unsafe":
+		return types.Unsafe, nil
+	case p == "C":
+		return nil, fmt.Errorf("cgo is not supported")
+	case l.inModule(p):
+		rel := strings.TrimPrefix(strings.TrimPrefix(p, l.modPath), "/")
+		if rel == "" {
+			rel = "."
+		}
+		return l.load(rel).tpkg, nil
+	case !strings.Contains(strings.SplitN(p, "/", 2)[0], "."):
+		return gfStd().Import(p)
+	}
+	if tp := l.other[p]; tp != nil {
+		return tp, nil
+	}
+	// a third-party module: ask the go command where it is, type-check its API from source
+	if l.osRoot == "" {
+		return nil, fmt.Errorf("import %q: third-party imports are not available here", p)
+	}
+	cmd := exec.Command("go", "list", "-f", "{{.Dir}}", p)
+	cmd.Dir = l.osRoot
+	cmd.Stderr = os.Stderr
+	out, err := cmd.Output()
+	if err != nil {
+		return nil, fmt.Errorf("go list %s (in %s): %v", p, l.osRoot, err)
+	}
+	dir := strings.TrimSpace(string(out))
+	files, _ := l.parseDir(os.DirFS(dir), ".", dir)
+	conf := types.Config{Importer: l, IgnoreFuncBodies: true, Error: func(error) {}}
+	tp, _ := conf.Check(p, l.fset, files, nil)
+	if tp == nil {
+		return nil, fmt.Errorf("import %q: cannot type-check %s", p, dir)
+	}
+	l.other[p] = tp
+	return tp, nil
+}
+
+// load type-checks the package in directory rel of the module (once)
+func (l *gfLoader) load(rel string) *gfPkg {
+	ip := l.modPath
+	if rel != "." {
+		ip += "/" + rel
+	}
+	if p := l.pkgs[ip]; p != nil {
+		return p
+	}
+	if l.busy[ip] {
+		die("gofacts: import cycle through %s", ip)
+	}
+	l.busy[ip] = true
+	files, names := l.parseDir(l.fsys, rel, rel)
+	if len(files) == 0 {
+		die("gofacts: no Go files for %s in configuration %s", ip, l.cfg.name)
+	}
+	for _, n := range names {
+		l.used[path.Join(rel, n)] = true
+	}
+	p := &gfPkg{rel: rel, path: ip, files: files, info: &types.Info{
+		Types:      map[ast.Expr]types.TypeAndValue{},
+		Defs:       map[*ast.Ident]types.Object{},
+		Uses:       map[*ast.Ident]types.Object{},
+		Selections: map[*ast.SelectorExpr]*types.Selection{},
+	}}
+	var errs []string
+	conf := types.Config{Importer: l, Error: func(err error) { errs = append(errs, err.Error()) }}
+	p.tpkg, _ = conf.Check(ip, l.fset, files, p.info)
+	if len(errs) > 0 || p.tpkg == nil {
+		// the analysis is only meaningful on well-typed code
+		if len(errs) > 8 {
+			errs = errs[:8]
+		}
+		die("gofacts: %s does not type-check in configuration %s:\n  %s", ip, l.cfg.name, strings.Join(errs, "\n  "))
+	}
+	l.pkgs[ip] = p
+	delete(l.busy, ip)
+	return p
+}
+
+// ---------------------------------------------------------------------------------------------------
+// facts
+
+type gfFact struct {
+	kind  string // write | call | fcall | addr
+	where string // pkg/file.go:line
+	v     string // the variable: NAME in its own package, otherwise PKG.NAME
+	third string // write, addr: the enclosing function; call, fcall: the method name
+	qual  string // call, fcall: the method with its receiver type, e.g. (*math/big.Int).SetInt64
+	recv  string // call, fcall: pointer | value | interface — the kind of the method's receiver
+}
+
+type gfFacts struct {
+	facts     map[gfFact]bool
+	vars      map[string]bool // pkg.name of every package-level variable of the analysed packages
+	initOnly  map[string]bool // pkg.func
+	accessors map[string]bool // pkg.func → var, as "pkg.func\x00var"
+	seenCalls map[string]bool // position of every method call examined in non-initialisation code
+	seenAsg   map[string]bool // … assignment / inc-dec / range-assign statement
+	seenLits  map[string]bool // … function literal
+	seenFuncs map[string]bool // … function declaration walked as non-initialisation code
+	configs   []string
+}
+
+func newGfFacts() *gfFacts {
+	return &gfFacts{facts: map[gfFact]bool{}, vars: map[string]bool{}, initOnly: map[string]bool{}, accessors: map[string]bool{},
+		seenCalls: map[string]bool{}, seenAsg: map[string]bool{}, seenLits: map[string]bool{}, seenFuncs: map[string]bool{}}
+}
+
+// the analysis of one loaded configuration
+type gfWorld struct {
+	l        *gfLoader
+	pkgs     []*gfPkg
+	accessor map[*types.Func]*types.Var
+	initOnly map[*types.Func]bool
+	out      *gfFacts
+}
+
+func gfUnparen(e ast.Expr) ast.Expr {
+	for {
+		p, ok := e.(*ast.ParenExpr)
+		if !ok {
+			return e
+		}
+		e = p.X
+	}
+}
+
+func gfPkgVar(obj types.Object) *types.Var {
+	v, ok := obj.(*types.Var)
+	if !ok || v.IsField() || v.Pkg() == nil || v.Parent() != v.Pkg().Scope() {
+		return nil
+	}
+	return v
+}
+
+// may a value of type t share memory with the value it was computed from?
+func gfMayAlias(t types.Type, depth int) bool {
+	if t == nil || depth > 10 {
+		return true
+	}
+	switch u := t.Underlying().(type) {
+	case *types.Basic:
+		return u.Kind() == types.UnsafePointer || u.Kind() == types.Invalid
+	case *types.Array:
+		return gfMayAlias(u.Elem(), depth+1)
+	case *types.Struct:
+		for i := 0; i < u.NumFields(); i++ {
+			if gfMayAlias(u.Field(i).Type(), depth+1) {
+				return true
+			}
+		}
+		return false
+	case *types.Tuple:
+		return false // multi-result calls are not followed
+	}
+	return true // pointers, slices, maps, channels, functions, interfaces, type parameters
+}
+
+func gfOrigin(f *types.Func) *types.Func {
+	if f == nil {
+		return nil
+	}
+	return f.Origin()
+}
+
+// root is the package-level variable an expression is rooted at, or nil
+func (w *gfWorld) root(p *gfPkg, e ast.Expr) *types.Var {
+	info := p.info
+	for {
+		switch x := e.(type) {
+		case *ast.Ident:
+			return gfPkgVar(info.ObjectOf(x))
+		case *ast.SelectorExpr:
+			if id, ok := x.X.(*ast.Ident); ok {
+				if _, isPkg := info.Uses[id].(*types.PkgName); isPkg {
+					return gfPkgVar(info.Uses[x.Sel]) // qualified identifier
+				}
+			}
+			e = x.X
+		case *ast.IndexExpr:
+			e = x.X
+		case *ast.IndexListExpr:
+			e = x.X
+		case *ast.SliceExpr:
+			e = x.X
+		case *ast.StarExpr:
+			e = x.X
+		case *ast.ParenExpr:
+			e = x.X
+		case *ast.TypeAssertExpr:
+			e = x.X
+		case *ast.UnaryExpr:
+			if x.Op != token.AND {
+				return nil
+			}
+			e = x.X
+		case *ast.CallExpr:
+			fun := gfUnparen(x.Fun)
+			if tv, ok := info.Types[fun]; ok && tv.IsType() { // conversion
+				if len(x.Args) != 1 {
+					return nil
+				}
+				e = x.Args[0]
 				continue
 			}
-			f, err := parser.ParseFile(fset, filepath.Join(dir, n), nil, parser.ParseComments)
-			if err != nil {
-				die("%v", err)
+			if !gfMayAlias(info.TypeOf(x), 0) {
+				return nil
 			}
-			// skip files excluded by a build tag that is never set in normal builds
-			skip := false
-			for _, cg := range f.Comments {
-				for _, cm := range cg.List {
-					if strings.HasPrefix(cm.Text, "//go:build") && (strings.Contains(cm.Text, "tablegen") || strings.Contains(cm.Text, "ignore")) {
-						skip = true
+			switch f := fun.(type) {
+			case *ast.Ident:
+				switch obj := info.Uses[f].(type) {
+				case *types.Builtin:
+					if obj.Name() == "append" && len(x.Args) > 0 {
+						e = x.Args[0]
+						continue
 					}
+				case *types.Func:
+					return w.accessor[gfOrigin(obj)]
 				}
-			}
-			if skip {
-				continue
-			}
-			files = append(files, f)
-			names = append(names, n)
-		}
-		pkgVars := map[string]bool{}
-		for _, f := range files {
-			for _, d := range f.Decls {
-				if gd, ok := d.(*ast.GenDecl); ok && gd.Tok == token.VAR {
-					for _, sp := range gd.Specs {
-						for _, id := range sp.(*ast.ValueSpec).Names {
-							if id.Name != "_" {
-								pkgVars[id.Name] = true
-								nvars++
-							}
+				return nil
+			case *ast.SelectorExpr:
+				if sel := info.Selections[f]; sel != nil {
+					m, _ := sel.Obj().(*types.Func)
+					if v := w.accessor[gfOrigin(m)]; v != nil {
+						return v
+					}
+					switch sel.Kind() {
+					case types.MethodVal:
+						e = f.X // a method may return a pointer into its receiver
+						continue
+					case types.MethodExpr:
+						if len(x.Args) > 0 {
+							e = x.Args[0]
+							continue
 						}
 					}
-				}
-			}
-		}
-		// init-only functions: init, and functions all of whose call sites are in init-only functions
-		callers := map[string]map[string]bool{}
-		funcs := map[string]*ast.FuncDecl{}
-		for _, f := range files {
-			for _, d := range f.Decls {
-				fd, ok := d.(*ast.FuncDecl)
-				if !ok || fd.Body == nil {
-					continue
-				}
-				key := fd.Name.Name
-				if fd.Recv != nil {
-					key = "method:" + fd.Name.Name
-				}
-				funcs[key] = fd
-				ast.Inspect(fd.Body, func(n ast.Node) bool {
-					if c, ok := n.(*ast.CallExpr); ok {
-						if id, ok := c.Fun.(*ast.Ident); ok {
-							if callers[id.Name] == nil {
-								callers[id.Name] = map[string]bool{}
-							}
-							callers[id.Name][key] = true
-						}
-					}
-					return true
-				})
-			}
-		}
-		initOnly := map[string]bool{"init": true}
-		for changed := true; changed; {
-			changed = false
-			for name := range funcs {
-				if initOnly[name] || strings.HasPrefix(name, "method:") || ast.IsExported(name) {
-					continue
-				}
-				cs := callers[name]
-				if len(cs) == 0 {
-					continue
-				}
-				all := true
-				for c := range cs {
-					if !initOnly[c] {
-						all = false
-					}
-				}
-				if all {
-					initOnly[name] = true
-					changed = true
-				}
-			}
-		}
-		root := func(e ast.Expr) *ast.Ident {
-			for {
-				switch x := e.(type) {
-				case *ast.Ident:
-					return x
-				case *ast.SelectorExpr:
-					e = x.X
-				case *ast.IndexExpr:
-					e = x.X
-				case *ast.StarExpr:
-					e = x.X
-				case *ast.ParenExpr:
-					e = x.X
-				case *ast.SliceExpr:
-					e = x.X
-				case *ast.UnaryExpr:
-					e = x.X
-				case *ast.CallExpr:
-					return nil
-				default:
 					return nil
 				}
+				if fn, ok := info.Uses[f.Sel].(*types.Func); ok { // pkg.Func(…)
+					return w.accessor[gfOrigin(fn)]
+				}
+				return nil
 			}
+			return nil
+		default:
+			return nil
 		}
-		for fi, f := range files {
-			for _, d := range f.Decls {
-				fd, ok := d.(*ast.FuncDecl)
-				if !ok || fd.Body == nil {
-					continue
-				}
-				key := fd.Name.Name
-				if fd.Recv != nil {
-					key = "method:" + fd.Name.Name
-				}
-				if initOnly[key] {
-					continue
-				}
-				// locals (parameters, receivers, := and var declarations) shadow package names
-				locals := map[string]bool{}
-				addFields := func(fl *ast.FieldList) {
-					if fl == nil {
-						return
+	}
+}
+
+func (w *gfWorld) where(pos token.Pos) string {
+	p := w.l.fset.Position(pos)
+	return fmt.Sprintf("%s:%d", p.Filename, p.Line)
+}
+
+func (w *gfWorld) posKey(pos token.Pos) string {
+	p := w.l.fset.Position(pos)
+	return fmt.Sprintf("%s:%d:%d", p.Filename, p.Line, p.Column)
+}
+
+func (w *gfWorld) relOf(tp *types.Package) string {
+	if w.l.inModule(tp.Path()) {
+		r := strings.TrimPrefix(strings.TrimPrefix(tp.Path(), w.l.modPath), "/")
+		if r == "" {
+			r = "."
+		}
+		return r
+	}
+	return tp.Path()
+}
+
+func (w *gfWorld) varName(p *gfPkg, v *types.Var) string {
+	if v.Pkg() == p.tpkg {
+		return v.Name()
+	}
+	return w.relOf(v.Pkg()) + "." + v.Name()
+}
+
+// accessors: functions and methods with one result, every return statement of which returns an
+// expression rooted at a package-level variable (to a fixpoint, so accessors of accessors count)
+func (w *gfWorld) findAccessors() {
+	for changed := true; changed; {
+		changed = false
+		for _, p := range w.pkgs {
+			for _, f := range p.files {
+				for _, d := range f.Decls {
+					fd, ok := d.(*ast.FuncDecl)
+					if !ok || fd.Body == nil || fd.Type.Results == nil || fd.Type.Results.NumFields() != 1 {
+						continue
 					}
-					for _, fld := range fl.List {
-						for _, id := range fld.Names {
-							locals[id.Name] = true
+					fn, _ := p.info.Defs[fd.Name].(*types.Func)
+					if fn == nil || w.accessor[fn] != nil {
+						continue
+					}
+					var first *types.Var
+					all, any := true, false
+					ast.Inspect(fd.Body, func(n ast.Node) bool {
+						switch x := n.(type) {
+						case *ast.FuncLit:
+							return false
+						case *ast.ReturnStmt:
+							any = true
+							var v *types.Var
+							if len(x.Results) == 1 {
+								v = w.root(p, x.Results[0])
+							}
+							if v == nil {
+								all = false
+							} else if first == nil {
+								first = v
+							}
 						}
+						return true
+					})
+					if any && all && first != nil {
+						w.accessor[fn] = first
+						w.out.accessors[p.rel+"."+gfFuncName(fd)+"\x00"+w.varName(p, first)] = true
+						changed = true
 					}
 				}
-				addFields(fd.Recv)
-				addFields(fd.Type.Params)
-				addFields(fd.Type.Results)
-				ast.Inspect(fd.Body, func(n ast.Node) bool {
-					switch x := n.(type) {
-					case *ast.AssignStmt:
-						if x.Tok == token.DEFINE {
-							for _, l := range x.Lhs {
-								if id, ok := l.(*ast.Ident); ok {
-									locals[id.Name] = true
-								}
-							}
-						}
-					case *ast.GenDecl:
-						for _, sp := range x.Specs {
-							if vs, ok := sp.(*ast.ValueSpec); ok {
-								for _, id := range vs.Names {
-									locals[id.Name] = true
-								}
-							}
-						}
-					case *ast.RangeStmt:
-						if x.Tok == token.DEFINE {
-							for _, e := range []ast.Expr{x.Key, x.Value} {
-								if id, ok := e.(*ast.Ident); ok {
-									locals[id.Name] = true
-								}
-							}
-						}
-					}
-					return true
-				})
-				isPkg := func(id *ast.Ident) bool { return id != nil && pkgVars[id.Name] && !locals[id.Name] }
-				where := func(p token.Pos) string {
-					return fmt.Sprintf("%s/%s:%d", pkg, names[fi], fset.Position(p).Line)
-				}
-				ast.Inspect(fd.Body, func(n ast.Node) bool {
-					switch x := n.(type) {
-					case *ast.AssignStmt:
-						if x.Tok != token.DEFINE {
-							for _, l := range x.Lhs {
-								if id := root(l); isPkg(id) {
-									writes = append(writes, fmt.Sprintf("(%q, %q, %q)", where(x.Pos()), id.Name, fd.Name.Name))
-								}
-							}
-						}
-					case *ast.IncDecStmt:
-						if id := root(x.X); isPkg(id) {
-							writes = append(writes, fmt.Sprintf("(%q, %q, %q)", where(x.Pos()), id.Name, fd.Name.Name))
-						}
-					case *ast.CallExpr:
-						if sel, ok := x.Fun.(*ast.SelectorExpr); ok {
-							if id := root(sel.X); isPkg(id) {
-								calls = append(calls, fmt.Sprintf("(%q, %q, %q)", where(x.Pos()), id.Name, sel.Sel.Name))
-							}
-						}
-						// &pkgVar or pkgVar[...] handed to copy/append as destination
-						if id, ok := x.Fun.(*ast.Ident); ok && (id.Name == "copy") && len(x.Args) > 0 {
-							if r := root(x.Args[0]); isPkg(r) {
-								writes = append(writes, fmt.Sprintf("(%q, %q, %q)", where(x.Pos()), r.Name, fd.Name.Name))
-							}
-						}
-					}
-					return true
-				})
 			}
 		}
 	}
-	sort.Strings(writes)
-	sort.Strings(calls)
-	var sb strings.Builder
-	sb.WriteString("/- GENERATED by /verif/go/cmd/translate (gofacts) from the non-test Go files of /repo — do not edit. -/\nnamespace SMGo.Gen.GoFacts\n\n")
-	fmt.Fprintf(&sb, "/-- package-level variables declared in the analysed packages -/\ndef packageVarCount : Nat := %d\n\n", nvars)
-	fmt.Fprintf(&sb, "/-- (where, variable, function): statements outside initialisation that write a package-level variable -/\ndef packageLevelWrites : List (String × String × String) :=\n  [%s]\n\n", strings.Join(writes, ",\n   "))
-	fmt.Fprintf(&sb, "/-- (where, variable, method): method calls outside initialisation whose receiver is a package-level variable -/\ndef packageLevelMethodCalls : List (String × String × String) :=\n  [%s]\n\n", strings.Join(calls, ",\n   "))
-	sb.WriteString("end SMGo.Gen.GoFacts\n")
+}
+
+func gfFuncName(fd *ast.FuncDecl) string {
+	if fd.Recv == nil || len(fd.Recv.List) == 0 {
+		return fd.Name.Name
+	}
+	t := fd.Recv.List[0].Type
+	star := ""
+	if s, ok := t.(*ast.StarExpr); ok {
+		t, star = s.X, "*"
+	}
+	if ix, ok := t.(*ast.IndexExpr); ok {
+		t = ix.X
+	}
+	if id, ok := t.(*ast.Ident); ok {
+		return "(" + star + id.Name + ")." + fd.Name.Name
+	}
+	return "(?)." + fd.Name.Name
+}
+
+// the package-level initialiser expressions of a package
+func gfVarInits(p *gfPkg) []ast.Expr {
+	var out []ast.Expr
+	for _, f := range p.files {
+		for _, d := range f.Decls {
+			if gd, ok := d.(*ast.GenDecl); ok && gd.Tok == token.VAR {
+				for _, sp := range gd.Specs {
+					out = append(out, sp.(*ast.ValueSpec).Values...)
+				}
+			}
+		}
+	}
+	return out
+}
+
+// init-only functions of one package: init, and unexported non-method functions every reference to
+// which is a direct call located in initialisation code (an init-only function's body or a package-level
+// initialiser) and outside every function literal
+func (w *gfWorld) findInitOnly(p *gfPkg) {
+	type ref struct {
+		region *types.Func // nil: a package-level initialiser
+		inLit  bool
+		isCall bool
+	}
+	refs := map[*types.Func][]ref{}
+	decls := map[*types.Func]*ast.FuncDecl{}
+	scan := func(region *types.Func, root ast.Node) {
+		callFun := map[*ast.Ident]bool{}
+		depth := 0
+		var stack []ast.Node
+		ast.Inspect(root, func(n ast.Node) bool {
+			if n == nil {
+				if _, ok := stack[len(stack)-1].(*ast.FuncLit); ok {
+					depth--
+				}
+				stack = stack[:len(stack)-1]
+				return true
+			}
+			stack = append(stack, n)
+			switch x := n.(type) {
+			case *ast.FuncLit:
+				depth++
+			case *ast.CallExpr:
+				if id, ok := gfUnparen(x.Fun).(*ast.Ident); ok {
+					callFun[id] = true
+				}
+			case *ast.Ident:
+				if fn, ok := p.info.Uses[x].(*types.Func); ok && fn.Pkg() == p.tpkg {
+					refs[fn] = append(refs[fn], ref{region, depth > 0, callFun[x]})
+				}
+			}
+			return true
+		})
+	}
+	for _, f := range p.files {
+		for _, d := range f.Decls {
+			fd, ok := d.(*ast.FuncDecl)
+			if !ok {
+				continue
+			}
+			fn, _ := p.info.Defs[fd.Name].(*types.Func)
+			if fn == nil {
+				continue
+			}
+			decls[fn] = fd
+			if fd.Recv == nil && fd.Name.Name == "init" {
+				w.initOnly[fn] = true
+			}
+			if fd.Body != nil {
+				scan(fn, fd.Body)
+			}
+		}
+	}
+	for _, e := range gfVarInits(p) {
+		scan(nil, e)
+	}
+	for changed := true; changed; {
+		changed = false
+		for fn, fd := range decls {
+			if w.initOnly[fn] || fd.Recv != nil || fd.Body == nil || ast.IsExported(fd.Name.Name) || fd.Name.Name == "main" {
+				continue
+			}
+			ok, n := true, 0
+			for _, r := range refs[fn] {
+				if r.region == fn {
+					continue // recursion
+				}
+				n++
+				if !r.isCall || r.inLit || (r.region != nil && !w.initOnly[r.region]) {
+					ok = false
+				}
+			}
+			if ok && n > 0 {
+				w.initOnly[fn] = true
+				changed = true
+			}
+		}
+	}
+	for fn, fd := range decls {
+		if w.initOnly[fn] && fd.Name.Name != "init" {
+			w.out.initOnly[p.rel+"."+fd.Name.Name] = true
+		}
+	}
+}
+
+func (w *gfWorld) add(f gfFact) { w.out.facts[f] = true }
+
+func (w *gfWorld) noteWrite(p *gfPkg, target ast.Expr, at token.Pos, fn string) {
+	if v := w.root(p, target); v != nil {
+		w.add(gfFact{kind: "write", where: w.where(at), v: w.varName(p, v), third: fn})
+	}
+}
+
+func (w *gfWorld) noteAddr(p *gfPkg, target ast.Expr, at token.Pos, fn string) {
+	if v := w.root(p, target); v != nil {
+		w.add(gfFact{kind: "addr", where: w.where(at), v: w.varName(p, v), third: fn})
+	}
+}
+
+func (w *gfWorld) noteMethod(p *gfPkg, recv ast.Expr, m *types.Func, at token.Pos) {
+	w.out.seenCalls[w.posKey(at)] = true
+	v := w.root(p, recv)
+	if v == nil || m == nil {
+		return
+	}
+	kind, qual := "value", m.Name()
+	if sig, ok := m.Type().(*types.Signature); ok && sig.Recv() != nil {
+		rt := sig.Recv().Type()
+		if _, isPtr := rt.(*types.Pointer); isPtr {
+			kind = "pointer"
+		} else if types.IsInterface(rt) {
+			kind = "interface"
+		}
+		qual = "(" + types.TypeString(rt, nil) + ")." + m.Name()
+	}
+	k := "call"
+	if !w.l.inModule(v.Pkg().Path()) {
+		k = "fcall"
+	}
+	w.add(gfFact{kind: k, where: w.where(at), v: w.varName(p, v), third: m.Name(), qual: qual, recv: kind})
+}
+
+// walk examines code that may run after initialisation
+func (w *gfWorld) walk(p *gfPkg, body ast.Node, fn string) {
+	info := p.info
+	ast.Inspect(body, func(n ast.Node) bool {
+		switch x := n.(type) {
+		case *ast.FuncLit:
+			w.out.seenLits[w.posKey(x.Pos())] = true
+		case *ast.AssignStmt:
+			if x.Tok != token.DEFINE { // := only ever declares or re-assigns variables of a function scope
+				w.out.seenAsg[w.posKey(x.Pos())] = true
+				for _, lhs := range x.Lhs {
+					w.noteWrite(p, lhs, x.Pos(), fn)
+				}
+			}
+		case *ast.IncDecStmt:
+			w.out.seenAsg[w.posKey(x.Pos())] = true
+			w.noteWrite(p, x.X, x.Pos(), fn)
+		case *ast.RangeStmt:
+			if x.Tok == token.ASSIGN {
+				w.out.seenAsg[w.posKey(x.Pos())] = true
+				for _, e := range []ast.Expr{x.Key, x.Value} {
+					if e != nil {
+						w.noteWrite(p, e, x.Pos(), fn)
+					}
+				}
+			}
+		case *ast.UnaryExpr:
+			if x.Op == token.AND {
+				w.noteAddr(p, x.X, x.Pos(), fn)
+			}
+		case *ast.SliceExpr:
+			// slicing an array (or a pointer to one) yields a pointer into it
+			if t := info.TypeOf(x.X); t != nil {
+				u := t.Underlying()
+				if pt, ok := u.(*types.Pointer); ok {
+					u = pt.Elem().Underlying()
+				}
+				if _, ok := u.(*types.Array); ok {
+					w.noteAddr(p, x.X, x.Pos(), fn)
+				}
+			}
+		case *ast.SelectorExpr:
+			if sel := info.Selections[x]; sel != nil && sel.Kind() == types.MethodVal {
+				m, _ := sel.Obj().(*types.Func)
+				w.noteMethod(p, x.X, m, x.Sel.Pos())
+			}
+		case *ast.CallExpr:
+			switch f := gfUnparen(x.Fun).(type) {
+			case *ast.Ident:
+				if b, ok := info.Uses[f].(*types.Builtin); ok && len(x.Args) > 0 {
+					switch b.Name() {
+					case "copy", "clear", "delete", "append":
+						// append may write into the spare capacity of its first argument
+						w.noteWrite(p, x.Args[0], x.Pos(), fn)
+					}
+				}
+			case *ast.SelectorExpr:
+				if sel := info.Selections[f]; sel != nil && sel.Kind() == types.MethodExpr && len(x.Args) > 0 {
+					m, _ := sel.Obj().(*types.Func)
+					w.noteMethod(p, x.Args[0], m, f.Sel.Pos())
+				}
+			}
+		}
+		return true
+	})
+}
+
+// walkLits walks only the function literals below a node of initialisation code
+func (w *gfWorld) walkLits(p *gfPkg, root ast.Node, fn string) {
+	ast.Inspect(root, func(n ast.Node) bool {
+		if lit, ok := n.(*ast.FuncLit); ok {
+			w.walk(p, lit, fn)
+			return false
+		}
+		return true
+	})
+}
+
+func (w *gfWorld) analyse() {
+	for _, p := range w.pkgs {
+		sc := p.tpkg.Scope()
+		for _, name := range sc.Names() {
+			if v := gfPkgVar(sc.Lookup(name)); v != nil && name != "_" {
+				w.out.vars[p.rel+"."+name] = true
+			}
+		}
+		w.findInitOnly(p)
+	}
+	w.findAccessors()
+	for _, p := range w.pkgs {
+		for _, f := range p.files {
+			for _, d := range f.Decls {
+				switch x := d.(type) {
+				case *ast.FuncDecl:
+					if x.Body == nil {
+						continue
+					}
+					fn, _ := p.info.Defs[x.Name].(*types.Func)
+					if w.initOnly[fn] {
+						w.walkLits(p, x.Body, x.Name.Name+".func")
+					} else {
+						w.out.seenFuncs[w.posKey(x.Pos())] = true
+						w.walk(p, x.Body, x.Name.Name)
+					}
+				case *ast.GenDecl:
+					if x.Tok != token.VAR {
+						continue
+					}
+					for _, sp := range x.Specs {
+						vs := sp.(*ast.ValueSpec)
+						for _, e := range vs.Values {
+							w.walkLits(p, e, "var "+vs.Names[0].Name)
+						}
+					}
+				}
+			}
+		}
+	}
+}
+
+// ---------------------------------------------------------------------------------------------------
+// running the extractor on a module
+
+// does the //go:build line (if any) of a Go source mention one of the tags?
+func gfBuildLineMentions(src []byte, tags []string) []string {
+	var out []string
+	for _, line := range strings.Split(string(src), "\n") {
+		t := strings.TrimSpace(line)
+		if strings.HasPrefix(t, "package ") {
+			break
+		}
+		if !strings.HasPrefix(t, "//go:build") && !strings.HasPrefix(t, "// +build") {
+			continue
+		}
+		for _, tag := range tags {
+			for _, w := range strings.FieldsFunc(t, func(r rune) bool {
+				return !(r == '_' || r == '.' || r >= '0' && r <= '9' || r >= 'a' && r <= 'z' || r >= 'A' && r <= 'Z')
+			}) {
+				if w == tag {
+					out = append(out, tag)
+				}
+			}
+		}
+	}
+	return out
+}
+
+// the directories of fsys that contain non-test Go files (testdata, vendor, hidden directories excluded)
+func gfPackageDirs(fsys fs.FS) []string {
+	var dirs []string
+	seen := map[string]bool{}
+	err := fs.WalkDir(fsys, ".", func(p string, d fs.DirEntry, err error) error {
+		if err != nil {
+			return err
+		}
+		n := d.Name()
+		if d.IsDir() {
+			if p != "." && (n == "testdata" || n == "vendor" || strings.HasPrefix(n, ".") || strings.HasPrefix(n, "_")) {
+				return fs.SkipDir
+			}
+			return nil
+		}
+		if strings.HasSuffix(n, ".go") && !strings.HasSuffix(n, "_test.go") && !seen[path.Dir(p)] {
+			seen[path.Dir(p)] = true
+			dirs = append(dirs, path.Dir(p))
+		}
+		return nil
+	})
+	if err != nil {
+		die("gofacts: %v", err)
+	}
+	sort.Strings(dirs)
+	return dirs
+}
+
+// gfRun type-checks every package of the module once per build configuration and unites the facts
+func gfRun(fsys fs.FS, osRoot, modPath string) *gfFacts {
+	dirs := gfPackageDirs(fsys)
+	// every non-test Go file, and the variant tags mentioned
+	all := map[string]bool{}
+	variants := map[string]bool{}
+	for _, d := range dirs {
+		ents, _ := fs.ReadDir(fsys, d)
+		for _, e := range ents {
+			n := e.Name()
+			if e.IsDir() || !strings.HasSuffix(n, ".go") || strings.HasSuffix(n, "_test.go") {
+				continue
+			}
+			src, err := fs.ReadFile(fsys, path.Join(d, n))
+			if err != nil {
+				die("gofacts: %v", err)
+			}
+			if len(gfBuildLineMentions(src, gfNeverTags)) > 0 {
+				continue
+			}
+			all[path.Join(d, n)] = true
+			for _, t := range gfBuildLineMentions(src, gfVariantTags) {
+				variants[t] = true
+			}
+		}
+	}
+	cfgs := []gfConfig{{"amd64", "amd64", nil}, {"arm64", "arm64", nil}, {"generic", "riscv64", nil}}
+	var vt []string
+	for t := range variants {
+		vt = append(vt, t)
+	}
+	sort.Strings(vt)
+	for _, t := range vt {
+		cfgs = append(cfgs, gfConfig{"amd64+" + t, "amd64", []string{t}}, gfConfig{"arm64+" + t, "arm64", []string{t}})
+	}
+	out := newGfFacts()
+	covered := map[string]bool{}
+	for _, cfg := range cfgs {
+		l := &gfLoader{fsys: fsys, osRoot: osRoot, modPath: modPath, cfg: cfg, fset: gfFset, std: gfStd(),
+			pkgs: map[string]*gfPkg{}, other: map[string]*types.Package{}, busy: map[string]bool{}, used: map[string]bool{}}
+		w := &gfWorld{l: l, accessor: map[*types.Func]*types.Var{}, initOnly: map[*types.Func]bool{}, out: out}
+		for _, d := range dirs {
+			// a directory all of whose files are excluded in this configuration is skipped
+			if fl, _ := l.parseDir(fsys, d, d); len(fl) == 0 {
+				continue
+			}
+			w.pkgs = append(w.pkgs, l.load(d))
+		}
+		w.analyse()
+		for f := range l.used {
+			covered[f] = true
+		}
+		out.configs = append(out.configs, cfg.name)
+	}
+	var missing []string
+	for f := range all {
+		if !covered[f] {
+			missing = append(missing, f)
+		}
+	}
+	if len(missing) > 0 {
+		sort.Strings(missing)
+		die("gofacts: files in no analysed build configuration (extend the configurations in gofacts.go): %s", strings.Join(missing, ", "))
+	}
+	return out
+}
+
+// ---------------------------------------------------------------------------------------------------
+// the self-test on the embedded fixture
+
+// gfSelfTest runs the extractor on the fixture; it returns the number of cases (planted facts + benign
+// look-alikes), the facts reported, and the list of discrepancies (empty = passed)
+func gfSelfTest(fsys fs.FS) (int, *gfFacts, []string) {
+	got := gfRun(fsys, "", "fixture")
+	want := map[string]bool{}
+	cases := 0
+	for _, d := range gfPackageDirs(fsys) {
+		ents, _ := fs.ReadDir(fsys, d)
+		for _, e := range ents {
+			if e.IsDir() || !strings.HasSuffix(e.Name(), ".go") {
+				continue
+			}
+			src, _ := fs.ReadFile(fsys, path.Join(d, e.Name()))
+			if len(gfBuildLineMentions(src, gfNeverTags)) > 0 {
+				continue
+			}
+			for i, line := range strings.Split(string(src), "\n") {
+				where := fmt.Sprintf("%s:%d", path.Join(d, e.Name()), i+1)
+				if strings.HasSuffix(strings.TrimSpace(line), "// benign") {
+					cases++
+				}
+				k := strings.Index(line, "// want:")
+				if k < 0 || strings.HasPrefix(strings.TrimSpace(line), "//") {
+					continue
+				}
+				for _, item := range strings.Split(line[k+len("// want:"):], ";") {
+					w := strings.Fields(item)
+					switch {
+					case len(w) == 2 && (w[0] == "write" || w[0] == "addr"):
+						want[w[0]+" "+where+" "+w[1]] = true
+					case len(w) == 3 && (w[0] == "call" || w[0] == "fcall"):
+						want[w[0]+" "+where+" "+w[1]+" "+w[2]] = true
+					default:
+						return 0, got, []string{"bad marker at " + where + ": " + item}
+					}
+					cases++
+				}
+			}
+		}
+	}
+	have := map[string]bool{}
+	for f := range got.facts {
+		k := f.kind + " " + f.where + " " + f.v
+		if f.kind == "call" || f.kind == "fcall" {
+			k += " " + f.third
+		}
+		have[k] = true
+	}
+	var bad []string
+	for k := range want {
+		if !have[k] {
+			bad = append(bad, "planted but NOT reported: "+k)
+		}
+	}
+	for k := range have {
+		if !want[k] {
+			bad = append(bad, "reported but not planted: "+k)
+		}
+	}
+	// the classifications the fixture relies on
+	for _, f := range []string{"fix.setup", "fix.setup2"} {
+		if !got.initOnly[f] {
+			bad = append(bad, "not classified init-only: "+f)
+		}
+	}
+	for _, f := range []string{"fix.notInitOnly", "fix.calledFromLit", "fix.Shadow"} {
+		if got.initOnly[f] {
+			bad = append(bad, "wrongly classified init-only: "+f)
+		}
+	}
+	for _, a := range []string{"fix.getCurve\x00cur", "fix.getN\x00n", "fix.getN2\x00n", "fix.tablePtr\x00table", "fix.tableSlice\x00table",
+		"fix.(holder).Table\x00table", "inner.Get\x00secret"} {
+		if !got.accessors[a] {
+			bad = append(bad, "not classified accessor: "+strings.Replace(a, "\x00", " -> ", 1))
+		}
+	}
+	for a := range got.accessors {
+		if strings.HasPrefix(a, "fix.notAccessor\x00") || strings.HasPrefix(a, "inner.Fresh\x00") {
+			bad = append(bad, "wrongly classified accessor: "+strings.Replace(a, "\x00", " -> ", 1))
+		}
+	}
+	if len(want) < 70 || cases < 110 {
+		bad = append(bad, fmt.Sprintf("fixture too small: %d planted facts, %d cases", len(want), cases))
+	}
+	if len(got.seenCalls) == 0 || len(got.seenAsg) == 0 || len(got.seenLits) == 0 {
+		bad = append(bad, "a counter is zero on the fixture")
+	}
+	sort.Strings(bad)
+	return cases, got, bad
+}
+
+func gfFixture() fs.FS {
+	sub, err := fs.Sub(gofactsFixtureFS, "testdata/gofacts_fixture")
+	if err != nil {
+		die("gofacts: %v", err)
+	}
+	return sub
+}
+
+// ---------------------------------------------------------------------------------------------------
+// emission
+
+func gfModulePath(root string) string {
+	raw, err := os.ReadFile(root + "/go.mod")
+	if err != nil {
+		die("gofacts: %v", err)
+	}
+	for _, line := range strings.Split(string(raw), "\n") {
+		f := strings.Fields(line)
+		if len(f) >= 2 && f[0] == "module" {
+			return strings.Trim(f[1], `"`)
+		}
+	}
+	die("gofacts: no module line in %s/go.mod", root)
+	return ""
+}
+
+// the facts of one kind, ordered by file, line (numerically), variable, method
+func gfSorted(fs *gfFacts, kind string) []gfFact {
+	var out []gfFact
+	for f := range fs.facts {
+		if f.kind == kind {
+			out = append(out, f)
+		}
+	}
+	split := func(where string) (string, int) {
+		i := strings.LastIndex(where, ":")
+		n := 0
+		fmt.Sscanf(where[i+1:], "%d", &n)
+		return where[:i], n
+	}
+	sort.Slice(out, func(i, j int) bool {
+		fi, li := split(out[i].where)
+		fj, lj := split(out[j].where)
+		if fi != fj {
+			return fi < fj
+		}
+		if li != lj {
+			return li < lj
+		}
+		if out[i].v != out[j].v {
+			return out[i].v < out[j].v
+		}
+		if out[i].third != out[j].third {
+			return out[i].third < out[j].third
+		}
+		return out[i].qual < out[j].qual
+	})
+	return out
+}
+
+func gfTriples(fs *gfFacts, kind string) []string {
+	var out []string
+	for _, f := range gfSorted(fs, kind) {
+		out = append(out, fmt.Sprintf("(%q, %q, %q)", f.where, f.v, f.third))
+	}
+	return out
+}
+
+func gfQuads(fs *gfFacts, kind string) []string {
+	var out []string
+	for _, f := range gfSorted(fs, kind) {
+		out = append(out, fmt.Sprintf("(%q, %q, %q, %q)", f.where, f.v, f.qual, f.recv))
+	}
+	return out
+}
+
+func gfList(items []string) string { return "[" + strings.Join(items, ",\n   ") + "]" }
+
+func gfKeys(m map[string]bool) []string {
+	var out []string
+	for k := range m {
+		out = append(out, k)
+	}
+	sort.Strings(out)
+	return out
+}
+
+func genGoFacts() {
+	// 1. the positive control: the extractor must find everything planted in the fixture, and nothing else
+	cases, fix, bad := gfSelfTest(gfFixture())
+	if len(bad) > 0 {
+		die("gofacts: SELF-TEST FAILED, nothing emitted (%d discrepancies):\n  %s", len(bad), strings.Join(bad, "\n  "))
+	}
+	// 2. the library
+	for _, pkg := range []string{"utils", "sm3", "sm4", "sm2", "sm2/internal", "sm2/internal/fiat"} {
+		if st, err := os.Stat(repo + "/" + pkg); err != nil || !st.IsDir() {
+			die("gofacts: package directory %s/%s not found", repo, pkg)
+		}
+	}
+	fs := gfRun(os.DirFS(repo), repo, gfModulePath(repo))
+	nvars := len(fs.vars)
 	if nvars < 10 {
 		die("gofacts: only %d package-level variables found", nvars)
 	}
+	pair := func(keys []string, sep string) []string {
+		var out []string
+		for _, k := range keys {
+			i := strings.LastIndex(k, sep)
+			out = append(out, fmt.Sprintf("(%q, %q)", k[:i], k[i+len(sep):]))
+		}
+		return out
+	}
+	var accs []string
+	for _, k := range gfKeys(fs.accessors) {
+		i := strings.Index(k, "\x00")
+		j := strings.Index(k, ".")
+		accs = append(accs, fmt.Sprintf("(%q, %q, %q)", k[:j], k[j+1:i], k[i+1:]))
+	}
+	var cfgs []string
+	for _, c := range fs.configs {
+		cfgs = append(cfgs, fmt.Sprintf("%q", c))
+	}
+	var sb strings.Builder
+	sb.WriteString("/- GENERATED by /verif/go/cmd/translate (gofacts) from the non-test Go files of /repo — do not edit.\n" +
+		"   Type-based extractor (go/types); see the header of /verif/go/cmd/translate/gofacts.go for what is and is not covered. -/\n" +
+		"namespace SMGo.Gen.GoFacts\n\n")
+	fmt.Fprintf(&sb, "/-- package-level variables declared in the analysed packages (all build configurations) -/\ndef packageVarCount : Nat := %d\n\n", nvars)
+	fmt.Fprintf(&sb, "/-- (package, name) of these variables -/\ndef packageVarNames : List (String × String) :=\n  %s\n\n", gfList(pair(gfKeys(fs.vars), ".")))
+	fmt.Fprintf(&sb, "/-- (where, variable, function): statements outside initialisation that write a package-level variable -/\ndef packageLevelWrites : List (String × String × String) :=\n  %s\n\n", gfList(gfTriples(fs, "write")))
+	fmt.Fprintf(&sb, "/-- (where, variable, method): method calls outside initialisation whose receiver is rooted at a package-level variable of the library -/\ndef packageLevelMethodCalls : List (String × String × String) :=\n  %s\n\n", gfList(gfTriples(fs, "call")))
+	fmt.Fprintf(&sb, "/-- the same calls as (where, variable, method with its receiver type, kind of receiver: pointer | value | interface) -/\ndef packageLevelMethodCallsTyped : List (String × String × String × String) :=\n  %s\n\n", gfList(gfQuads(fs, "call")))
+	fmt.Fprintf(&sb, "/-- method calls outside initialisation on package-level variables of OTHER modules (standard library, dependencies), same format -/\ndef foreignPackageLevelMethodCalls : List (String × String × String × String) :=\n  %s\n\n", gfList(gfQuads(fs, "fcall")))
+	fmt.Fprintf(&sb, "/-- (where, variable, function): places outside initialisation where the address of (an element of) a package-level variable is taken, or an array one is sliced: a pointer escapes the syntactic argument -/\ndef packageLevelAddrTaken : List (String × String × String) :=\n  %s\n\n", gfList(gfTriples(fs, "addr")))
+	fmt.Fprintf(&sb, "/-- (package, function): functions other than init classified as initialisation-only (not examined) -/\ndef initOnlyFunctions : List (String × String) :=\n  %s\n\n", gfList(pair(gfKeys(fs.initOnly), ".")))
+	fmt.Fprintf(&sb, "/-- (package, function, variable): accessors — a call of the function is treated as the variable -/\ndef accessorFunctions : List (String × String × String) :=\n  %s\n\n", gfList(accs))
+	fmt.Fprintf(&sb, "/-- build configurations type-checked (facts are united) -/\ndef buildConfigs : List String := [%s]\n\n", strings.Join(cfgs, ", "))
+	fmt.Fprintf(&sb, "/-- what the extractor examined in non-initialisation code of the library -/\ndef functionsWalked : Nat := %d\ndef methodCallsSeenTotal : Nat := %d\ndef assignmentsSeenTotal : Nat := %d\ndef funcLitsSeen : Nat := %d\n\n",
+		len(fs.seenFuncs), len(fs.seenCalls), len(fs.seenAsg), len(fs.seenLits))
+	sb.WriteString("/-! The self-test: before emitting, the same extractor ran on the embedded fixture\n" +
+		"    /verif/go/cmd/translate/testdata/gofacts_fixture; this file exists only because every planted\n" +
+		"    fact was reported and nothing else was. -/\n\n")
+	fmt.Fprintf(&sb, "/-- planted facts + benign look-alikes in the fixture -/\ndef selfTestCases : Nat := %d\ndef selfTestPassed : Bool := true\n\n", cases)
+	fmt.Fprintf(&sb, "/-- what the extractor reported on the fixture (same formats) -/\ndef selfTestWrites : List (String × String × String) :=\n  %s\n\n", gfList(gfTriples(fix, "write")))
+	fmt.Fprintf(&sb, "def selfTestMethodCalls : List (String × String × String) :=\n  %s\n\n", gfList(gfTriples(fix, "call")))
+	fmt.Fprintf(&sb, "def selfTestAddrTaken : List (String × String × String) :=\n  %s\n\n", gfList(gfTriples(fix, "addr")))
+	fmt.Fprintf(&sb, "def selfTestFuncLitsSeen : Nat := %d\n\n", len(fix.seenLits))
+	sb.WriteString("end SMGo.Gen.GoFacts\n")
 	writeIfChanged("GoFacts.lean", []byte(sb.String()))
 }
 
